@@ -153,6 +153,15 @@ func dischargeAll(obls []*Obligation, dir string, timeoutS, seed, workers int, c
 			defer wg.Done()
 			for i := range ch {
 				o := obls[i]
+				if o.PC == "true" && (o.Goal == "true" || o.Goal == "false") && !o.WantSat {
+					// structural obligation decided by the generator itself (closed-world scans, literal tables, goroutine frames)
+					st := "unsat"
+					if o.Goal == "false" {
+						st = "sat"
+					}
+					o.Result = &SolveResult{Status: st, Solver: "govc-structural", Tried: []string{"govc-structural:" + st}}
+					continue
+				}
 				q := renderQuery(o, seed)
 				f := filepath.Join(dir, fmt.Sprintf("%04d_%s.smt2", i, fileSafe(o.Func+"#"+o.Name)))
 				confirm := confirmTop && o.Kind == "ensures"
